@@ -12,9 +12,9 @@ REPO = os.environ.get('PGMV_REPO', '/repo')
 BUILD = os.environ.get('PGMV_BUILD', os.path.join(VERIF, 'build'))
 
 # property -> evidence level (default 'proof')
-LEVELS = {'C08': 'other', 'C12': 'other', 'C15': 'other'}
+LEVELS = {'C12': 'other', 'C15': 'other'}
 EXPLAIN = {
-    'C08': 'Deductive core: CompressedLevel accessors under contract (obligations/discharged below). The search contract itself is decided only by the bounded native link on the real class; bounded results are never counted as proved.',
+    'C08': 'CompressedPGMIndex::search and the CompressedLevel accessors are under contract (obligations/discharged below; indexes of at most 8 levels). The constructor and merge_slopes are decided only by the bounded native link on the real class; bounded results are never counted as proved.',
     'C12': 'Deductive core: serialize_and_map under contract and a harness proof of the write/reopen round trip of the header (obligations/discharged below). The equivalence of the two creating constructors and byte-identity of the files are decided only by the bounded native link on the real class (files compared byte by byte); bounded results are never counted as proved.',
     'C15': 'Deductive core: capacity helpers (ceil_log2, max_size) and the constructor under contract. The invariants after every update are decided only by the bounded native link through the guarded friend accessor.',
 }
